@@ -193,6 +193,24 @@ def _batches(draw, tier):
         case["seq"] = [float(x) for x in seq]
         case["unit"] = 2.0 ** math.floor(math.log2(draw(st.sampled_from([0.25, 0.5, 1.0, 2.0])) * case["R_m"] / m))
         factors = [1.0] + [draw(st.floats(0.05, 1.0, allow_nan=False)) for _ in range(n - 1)]
+    if draw(st.sampled_from([True, False, False])) and all(float(x).is_integer() for x in case["seq"]):
+        # end of the sequence [p, q, r] with r a reversal of the REPEATED sequence that closes the hysteresis (p, q):
+        # the first pass leaves r in its sample tail, the second pass processes it first and books the closure to the
+        # first pass, followed by hystereses of the second pass in the same call (a class the plain lists reach in 1 of 300)
+        seq = [int(x) for x in case["seq"]]
+        bound = int(max(abs(x) for x in seq))
+        if abs(seq[0]) >= 2:
+            # r strictly between zero and the first sample: a reversal at the real junction r -> first sample, but not
+            # towards the zero the first pass is started from, so the first pass cannot flush it
+            r = draw(st.integers(1, abs(seq[0]) - 1)) * (1 if seq[0] > 0 else -1)
+        else:
+            r = draw(st.integers(-bound, bound).filter(lambda v: v != seq[0]))
+        sg = 1 if seq[0] > r else -1
+        d1 = draw(st.integers(1, bound - sg * r))
+        e = draw(st.integers(0, d1 - 1))
+        seq += [r + sg * e, r + sg * d1, r]
+        case["seq"] = [float(x) for x in seq]
+        case["carried_closure_suffix"] = True
     order = draw(st.permutations(range(n)))
     case.update({"factors": [factors[i] for i in order], "dyadic": dyadic})
     # labels of the load steps and of the nodes: the order of the sequence is the row order, ids are only labels
@@ -219,6 +237,8 @@ def batch_vs_alone(case, ctx):
     ctx.label("points=%d" % n, "dyadic" if case["dyadic"] else "general_ratio")
     if case.get("edge_rich"):
         ctx.label("edge_rich")
+    if case.get("carried_closure_suffix"):
+        ctx.label("carried_closure_suffix")
     ctx.nontrivial()
     loads_by_point = [[f * x for x in base] for f in factors]
     maxima = [max(abs(x) for x in lp) for lp in loads_by_point]
@@ -252,6 +272,11 @@ def batch_vs_alone(case, ctx):
         law_j, binned_j = _law(case, maxima[j])
         alone = _collective(_hcm.run_two_pass(loads_by_point[j], binned_j)[1])
         mine = df.xs(j, level="assessment_point_index")
+        if j == 0 and len(alone):
+            ri = [int(x) for x in alone["run_index"]]
+            n_first = len(_hcm.run_two_pass(loads_by_point[j], binned_j, passes=1)[1].collective)
+            if ri.count(1) > n_first:
+                ctx.label("closure_carried_to_pass_1" + ("_and_more_in_pass_2" if ri.count(2) else ""))
         if len(alone) != len(mine):
             raise Violation("point %d: %d hystereses in the batch, %d alone (factors %r, loads %r)" % (j, len(mine), len(alone), factors, base),
                             bucket="batch:count")
